@@ -331,7 +331,7 @@ func buildShared(rt *goja.Runtime, specs []sharedSpec) []goja.Value {
 	return vals
 }
 
-const nRaceStmt = 23
+const nRaceStmt = 25
 
 func genRaceProgram(W *core.Track, nshared int) string {
 	var sb strings.Builder
@@ -391,6 +391,10 @@ func genRaceProgram(W *core.Track, nshared int) string {
 		case 21, 22: // every Runtime owns its built-ins: deleting, adding and redefining their properties stays inside it
 			tgt := []string{"Math", "JSON", "Reflect", "Promise", "Map.prototype", "Set.prototype", "WeakMap.prototype", "ArrayBuffer.prototype", "DataView.prototype", "Date", "Number", "Array", "Object", "BigInt", "Uint8Array.prototype.__proto__", "Math"}[W.Draw(16)]
 			fmt.Fprintf(&sb, "{ var B = %s, ks = Object.getOwnPropertyNames(B), k0 = ks[%d %% ks.length], k1 = ks[%d %% ks.length]; var had = delete B[k0]; try { B.mine%d = TID; } catch (e) {} try { Object.defineProperty(B, k1, { value: %d, configurable: true, writable: true }); } catch (e) {} var after = Object.getOwnPropertyNames(B); out.push(ks.length, had, after.length, after.indexOf(k0), after.indexOf(''), after.indexOf('mine%d') >= 0, Reflect.ownKeys(B).length, typeof B[k1]); }\n", tgt, W.Draw(64), W.Draw(64), i, i, i)
+		case 23: // BigInt primitives (literals of the shared Program, shared values) are immutable: storing one that does not fit into 64 bits reduces a copy
+			fmt.Fprintf(&sb, "{ var bl = 18446744073709551621n, bn = -1180591620717411303427n, y = SH[%d]; var ba = new BigInt64Array(2), bu = new BigUint64Array(2), dv = new DataView(new ArrayBuffer(16)); ba[0] = bl; bu[0] = bn; dv.setBigInt64(0, bl); dv.setBigUint64(8, bn); if (typeof y === 'bigint') { ba[1] = y; bu[1] = y; dv.setBigUint64(0, y); } out.push(String(bl), String(bn), String(ba[0]), String(bu[0]), String(dv.getBigInt64(8)), typeof y === 'bigint' ? String(y) + '/' + ba[1] + '/' + bu[1] : 0, BigInt.asIntN(64, bl) === ba[0]); }\n", a)
+		case 24: // number formatting with many digits (big-integer arithmetic and package-level power tables in ftoa)
+			fmt.Fprintf(&sb, "out.push((1.2345e-7).toFixed(100).length, (1e-300).toFixed(100).slice(-6), (1.2345678901234567e+100).toPrecision(21), (9.87e-200).toExponential(30), (5e-324).toFixed(100).length, (1.7976931348623157e308).toPrecision(100).slice(0, 12), (%d.5e-90).toExponential(40).slice(-8), (1e21).toString(7).length, (0.1).toString(3).slice(0, 12));\n", i)
 		case 18: // use whatever another runtime has published so far (schedule-dependent: executed, not recorded)
 			fmt.Fprintf(&sb, "try { var mv = MB_GET(%d); if (typeof mv === 'string') { mv.length; mv.charCodeAt(3); (mv + 'x').length; mv.toUpperCase(); mv === SH[%d]; mv < SH[%d]; new Map([[mv, 1]]).has(mv); mv.indexOf('\\u00e9'); mv.normalize('NFC'); [...mv].length; } else if (typeof mv === 'symbol') { var mo = {}; mo[mv] = 1; String(mv.description); } } catch (emb) { }\n", W.Draw(8), a, b)
 		default:
@@ -491,14 +495,8 @@ func (e *racesim) Run(t *core.Tape, want bool) *core.Result {
 		res.OutOfScope = "generated program does not compile: " + err.Error()
 		return res
 	}
-	refRt := goja.New()
-	refOut, refErr := runRaceScript(refRt, refPrg, buildShared(refRt, specs), times, &raceMailbox{}, 0)
-	for _, e := range refErr {
-		if strings.HasPrefix(e, "GO-PANIC") {
-			res.OutOfScope = "the script crashes the engine when run alone: " + e
-			return res
-		}
-	}
+	// (the reference is EXECUTED after the concurrent part: run first, it would initialise every lazily built
+	// package-level table on this goroutine, and the go statements below would order that before all tasks)
 
 	// the shared objects
 	prg := goja.MustCompile("race.js", src, false)
@@ -587,6 +585,15 @@ func (e *racesim) Run(t *core.Tape, want bool) *core.Result {
 		tk.bt.close()
 	}
 	sched.main.close()
+
+	refRt := goja.New()
+	refOut, refErr := runRaceScript(refRt, refPrg, buildShared(refRt, specs), times, &raceMailbox{}, 0)
+	for _, e := range refErr {
+		if strings.HasPrefix(e, "GO-PANIC") {
+			res.OutOfScope = "the script crashes the engine when run alone: " + e
+			return res
+		}
+	}
 
 	res.Steps = sched.ticks
 	res.Count("goroutine-switches", int64(sched.switches))
